@@ -575,7 +575,7 @@ func (p *c02) RunCase(i int) *core.CaseResult {
 
 func (p *c02) Meta() core.Meta {
 	return core.Meta{
-		Rule: "expression cases: every depth-1 tree (11 binary ops x 8 leaves^2, unary - ~ on leaves, ! on comparisons), CASE WHEN with 1-2 branches with/without ELSE, and depth-2 trees (representative depth-1 set x leaves, thorough: x representative set), each as SELECT id, e AS v over the 6 archetype rows and the empty table; shape cases: every select list of 1-3 items from a 13-item menu (columns, nested path, missing key, aliases, duplicate aliases, *, expressions) x {no WHERE, 2 WHEREs} over all tables of <= 2 (thorough 3) archetype rows and one table of 29 rows; non-trivial = at least one row with a defined reference value / at least one kept row",
+		Rule: "expression cases: every depth-1 tree (11 binary ops x 8 leaves^2, unary - ~ on leaves, ! on comparisons), CASE WHEN with 1-2 branches with/without ELSE, and depth-2 trees (representative depth-1 set x leaves, thorough: x representative set), each as SELECT id, e AS v over the 6 archetype rows and the empty table; shape cases: every select list of 1-3 items from a 13-item menu (columns, nested path, missing key, aliases, duplicate aliases, *, expressions) x {no WHERE, 2 WHEREs} over all tables of <= 2 (thorough 3) archetype rows and one table of 29 rows; non-trivial = at least one row with a defined reference value / at least one kept row; shift counts at and beyond the operand width (31 ... 1000) from a constant, a column and a sub-expression",
 		Assumptions: []string{
 			"reference: IEEE double arithmetic; DIV truncates toward zero on integer-valued operands; % is fmod; & | ^ << >> on non-negative integers < 2^53; ~ is 64-bit two's complement; abstains on division by zero, non-finite results, NULL under unary operators, non-integer bit operands",
 			"for a key produced by two items of one select list either item's value is accepted (the property fixes the key set, not which duplicate wins)",
